@@ -35,6 +35,8 @@ def _worker(pid, modname, fnname, kwargs, name, tier, seed, conn):
         t0 = time.time()
         try:
             getattr(mod, fnname)(job, **kwargs)
+        except core.OutOfReach as e:
+            job.record("%s/*" % name, "inconclusive", str(e), nontrivial=False)
         except BaseException as e:  # noqa: a crashed job is a harness error, never a verdict
             job.errors.append("CRASH %s: %s\n%s" % (type(e).__name__, e, traceback.format_exc()[-2500:]))
             job.crashed = True
@@ -187,8 +189,8 @@ def main(argv=None):
     n_ob = len(results)
     n_dis = len(by.get("discharged", []))
     nontrivial_hashes = {r["hash"] for r in results if r.get("nontrivial") and r["status"] in ("discharged", "known", "violated")}
-    if n_dis == 0 and not violated and not args.only:
-        harness_errors.append("vacuous run: no obligation was discharged")
+    if n_dis == 0 and not violated and not args.only and not by.get("inconclusive"):
+        harness_errors.append("vacuous run: no obligation was produced")
 
     wall = time.time() - t_start
     summary = {
